@@ -35,3 +35,33 @@ package jrpc2
 
 //@ func (*NumHash).error props=C08
 //@   ensures nh.nreads == 0 && nh.err == err && nh.Num == old(nh.Num)
+
+// C08: the segment cache. fetched(b): b was returned by a successful call of
+// the getter. Invariant: every entry is a segment, and a segment marked done
+// holds the result of a successful fetch (a failed fetch is never stored).
+//@ spec segOK(c *cache, k key) bool = has(c.segments, k) ==> c.segments[k] != nil && ((*c.segments[k]).done ==> fetched((*c.segments[k]).d))
+
+//@ func (*cache).pruneMaxRead props=C08
+//@   requires c.segments != nil && (forall k key :: has(c.segments, k) ==> c.segments[k] != nil)
+//@   ensures [subset] forall k key :: has(c.segments, k) ==> old(has(c.segments, k)) && c.segments[k] == old(c.segments[k])
+//@   ensures [expired-removed] forall k key :: has(c.segments, k) ==> (*c.segments[k]).nreads < c.maxreads
+//@   ensures [fresh-kept] forall k key :: old(has(c.segments, k)) && (*old(c.segments[k])).nreads < c.maxreads ==> has(c.segments, k)
+//@   ensures [frame] c.maxreads == old(c.maxreads) && c.segments == old(c.segments)
+//@   loop#0 invariant forall k key :: has(c.segments, k) ==> old(has(c.segments, k)) && c.segments[k] == old(c.segments[k])
+//@   loop#0 invariant forall k key :: has(c.segments, k) && rangevisited[k] ==> (*c.segments[k]).nreads < c.maxreads
+//@   loop#0 invariant forall k key :: old(has(c.segments, k)) && (!rangevisited[k] || (*old(c.segments[k])).nreads < c.maxreads) ==> has(c.segments, k)
+//@   loop#0 invariant c.maxreads == old(c.maxreads) && c.segments == old(c.segments)
+
+// pruneSegments keeps the five highest segments (sort.Slice with a closure):
+// not brought within reach; trusted contract: it only removes entries.
+//@ func (*cache).pruneSegments props=C08 trusted modifies=maps
+//@   ensures forall k key :: has(c.segments, k) ==> old(has(c.segments, k)) && c.segments[k] == old(c.segments[k])
+//@   ensures c.maxreads == old(c.maxreads) && c.segments == old(c.segments)
+
+//@ func (*cache).get props=C08,C07
+//@   requires forall k key :: segOK(c, k)
+//@   dyncall f pure
+//@   dyncall f ensures result1 == nil ==> fetched(result0)
+//@   ensures [inv] forall k key :: segOK(c, k)
+//@   ensures [result-is-a-successful-fetch] result1 == nil ==> fetched(result0)
+//@   ensures [error-returns-nothing] !nocache && result1 != nil ==> result0 == nil
